@@ -8,7 +8,9 @@ CFG = dict(
          "step. Schedules per case: `seq` (no gates: 1-4 Stop calls racing each other and the source's own termination, 1-3 start/stop rounds on "
          "the same object, optional writing), `rnd` (every gate site gated, a seeded scheduler picks which parked goroutine moves next; 1-4 Stops, "
          "requests, self-termination by error block), `stopAt i` (Stop issued while Start is parked between two of its steps), `reuse` (Stop parked "
-         "before RunDoneWait across a restart), `selfW` (source ends by itself while writing), `udpFail`/`udpBusy` (failed Abaco Start). The logged "
+         "before RunDoneWait across a restart), `selfW` (source ends by itself while writing), `udpFail`/`udpBusy` (failed Abaco Start), `startRunFail` (StartRun of the scripted source fails "
+         "1-2 times AFTER RunDoneActivate, then a Start succeeds on the same object, optionally a request, then 1-2 Stops). After every failed Start the real "
+         "object's completion barrier is observed (runDone.Wait() returns? run-done channel closed?) and judged: Inactive <-> counter 0. The logged "
          "trace must be a run of the Lean transition system; return values, GetState(), goroutine census, writing flag and UDP-port re-bindability "
          "must equal the model's and satisfy the property oracle; a watchdog turns a hang into the output `hang 1`. Non-trivial = at least two "
          "threads of interest interleaved (several Stops, self-termination, restart on the same object, or a gated schedule); distinct by input line + trace.",
@@ -34,7 +36,7 @@ MANIFEST = dict(
          "shared: source state, abort and nextBlock channels, runDone counter, writing flag, resources of Sample), for ALL event sequences (any k, any number of "
          "runs, any schedule): lc_inv (state <-> wait-group counter <-> thread program points; wait group never negative; no channel closed twice), "
          "C10_no_stuck_state (a call in flight => some non-environment step enabled), C10_stop_measure / C10_stop_bounded (a natural-number measure strictly "
-         "decreases on every step of the shut-down => every Stop returns under a fair schedule), C10_after_stops_inactive, C10_failed_start_restartable, "
+         "decreases on every step of the shut-down => every Stop returns under a fair schedule), C10_after_stops_inactive, C10_failed_start_restartable (failure before RunDoneActivate), C10_failed_startrun_restartable (failure after it: activation undone), "
          "C10_restart; C10_no_crash / C10_wait_own_run are proved under the environment discipline E (Start and Stop calls do not overlap) and their unrestricted "
          "forms are refuted by proved counterexamples (two known findings). The model is tied to the code on every run by trace conformance: real sources are "
          "started/stopped through the real entry points under forced and random interleavings, the logged verifPoint trace must be accepted by the model and the "
@@ -58,6 +60,8 @@ THEOREMS = [
     ("DastardV.Props.C10", "DastardV.C10.C10_stop_bounded"),
     ("DastardV.Props.C10", "DastardV.C10.C10_after_stops_inactive"),
     ("DastardV.Props.C10", "DastardV.C10.C10_failed_start_restartable"),
+    ("DastardV.Props.C10", "DastardV.C10.C10_failed_startrun_restartable"),
+    ("DastardV.Props.C10", "DastardV.C10.C10_failed_start_barrier_released"),
     ("DastardV.Props.C10", "DastardV.C10.C10_restart"),
     ("DastardV.Props.C10", "DastardV.C10.C10_no_crash_partial"),
     ("DastardV.Props.C10", "DastardV.C10.C10_no_crash_counterexample"),
